@@ -390,13 +390,25 @@ def run_assembly(case, acc):
         log = getattr(c, 'log', None)
         hidden = [v for v in decl if v.startswith('_')]
         has_hidden = has_hidden or bool(hidden)
+        own = None     # what the component itself last returned
+        if isinstance(c, Mock):
+            own = c.init()
         for i in range(len(hist) - 1):
             g, g2 = hist[i], hist[i + 1]
             exp_local = {}
             for v in decl:
-                key = nm + v if v.startswith('_') else v
-                if key in g:
-                    exp_local[v] = g[key]
+                if v.startswith('_'):
+                    # hidden: the value the component produced itself (the
+                    # global name it is stored under is not specified); for
+                    # the real stepper, the documented mangling name + v
+                    if own is not None and v in own:
+                        exp_local[v] = own[v]
+                    elif own is None and (nm + v) in g:
+                        exp_local[v] = g[nm + v]
+                elif v in g:
+                    exp_local[v] = g[v]
+            if isinstance(c, Mock):
+                own = c.next(exp_local)
             if log is not None:
                 if log[i] != exp_local:
                     acc.ev()
@@ -417,7 +429,9 @@ def run_assembly(case, acc):
                 nxt = None
             if nxt is not None:
                 for v, val in nxt.items():
-                    key = nm + v if v.startswith('_') else v
+                    if v.startswith('_'):
+                        continue   # checked through the next local state
+                    key = v
                     if g2.get(key) != val:
                         acc.ev()
                         acc.violation('recorded_step_violates_component',
